@@ -90,6 +90,28 @@ def run(tier, selftest):
             rep.violation(f"regen:{'+'.join(sorted(keys))}:{c['k']}",
                           f"shipped and freshly generated code differ in {keys} for case {c} ({'strict' if docs[i][1] else 'lenient'})",
                           {"kind": "doc", "case": c, "text": docs[i][0], "strict": docs[i][1]})
+    # edits through the API (defaults of new objects and of appended items come from generated code too)
+    import editcheck
+    ecases, _ = editcheck.build_cases("quick", random.Random(vlib.seed() * 7 + 20))
+    ein = os.path.join(vlib.scratch(), "c20_edit.ndjson")
+    vlib.write_ndjson(ein, ecases)
+    eouts = []
+    for tag, b in (("a", shipped), ("b", fresh)):
+        eo = os.path.join(vlib.scratch(), f"c20_edit_{tag}.out")
+        rc, _, err = vlib.run_harness(b, ["edit-op", "--cases", ein, "--out", eo], timeout=1800)
+        if rc != 0:
+            vlib.tool_error(f"edit-op failed: {err[-300:]}")
+        eouts.append([json.loads(l) for l in open(eo) if l.strip()])
+    nedits = 0
+    for case, xa, xb in zip(ecases, eouts[0], eouts[1]):
+        for ea, eb in zip(xa.get("results", []), xb.get("results", [])):
+            nedits += 1
+            if ea != eb:
+                disagreements += 1
+                keys = [k for k in set(ea) | set(eb) if ea.get(k) != eb.get(k)]
+                ed = ea["edit"]
+                rep.violation(f"regen:edit:{ed['op']}:{ed['kind']}", f"shipped and freshly generated code differ in {keys} after the API edit {ed}",
+                              {"kind": "edit", "text": case["text"], "cumulative": case["cumulative"], "edits": case["edits"] if case["cumulative"] else [ed]})
     # (i) the fresh variant conforms to the specification as well
     events = [pc.load_event(r, s, c if c["k"] not in ("layout",) else None) for r, (t, s), c in zip(rb, docs, meta)]
     rejected, trees, tr, njudged = pc.judge_events(events, PID)
@@ -113,6 +135,7 @@ def run(tier, selftest):
         "distinct_nontrivial": sum(1 for c in meta if c["k"] != "pos"),
         "rule": "every document of the corpus is run through both builds; a case counts as checked when all transcript parts (tokens, outcome, error and diagnostic texts, Debug tree, written text, three reload cycles) were compared",
         "disagreements_found": disagreements,
+        "api_edits_compared": nedits,
         "cases_per_kind": kinds,
         "fresh_variant_events_validated_against_parser_spec": njudged,
         "fresh_variant_events_rejected": len(rejected),
@@ -134,6 +157,18 @@ def replay(path):
     shipped = vlib.build_harness()
     fresh = build_fresh()
     case = r["case"]
+    if case.get("kind") == "edit":
+        ein = os.path.join(vlib.scratch(), "c20_edit_replay.ndjson")
+        vlib.write_ndjson(ein, [{"id": 0, "text": case["text"], "cumulative": case["cumulative"], "edits": case["edits"]}])
+        outs = []
+        for tag, b in (("a", shipped), ("b", fresh)):
+            eo = os.path.join(vlib.scratch(), f"c20_edit_replay_{tag}.out")
+            vlib.run_harness(b, ["edit-op", "--cases", ein, "--out", eo])
+            outs.append(open(eo).read())
+        if outs[0] != outs[1]:
+            rep.violation("regen:edit", "shipped and freshly generated code differ after an API edit", case)
+        print("replay:", "violation reproduced" if rep.new else "no violation")
+        return rep.exit_code()
     docs = [(case["text"], case["strict"])]
     want = ("tokens", "tree", "write", "cycle")
     a = pc.run_loads(shipped, docs, "c20a", want=want)[0]
